@@ -42,6 +42,7 @@ fn leader_waiter_and_other_key() {
     let _ = svc::poll_ready_once(&mut s);
     let mut leader = Some(Box::pin(s.call(a)));
     assert!(mon().calls == 1 && mon().last_req == a, "[C11.leader_calls_inner] the first request for a key calls the wrapped service");
+    assert!(mon().unready_calls == 0, "[C20.coalesce_ready_instance] the leader's call goes to the instance on which readiness was observed");
     let mut waiter = Box::pin(s2.call(b));
     assert!(mon().calls == 1, "[C11.waiter_causes_no_call] a request arriving while a call for its key is in flight causes no inner call of its own");
     let mut other = Box::pin(s.call(c));
